@@ -106,8 +106,13 @@ def gen_registry(rng, tier):
         ops.append("settle 4000")
         ops += ["listall %s" % s for s in svcs]
         if tier == "thorough" and i % 2 == 1:
+            # a node is killed and comes back: it receives the others' data - persistent instances through Raft, ephemeral
+            # HTTP instances with the owners' next heartbeat batch (their clients keep beating, as real clients do)
             victim = rng.choice([2, 3])
-            ops += ["kill %d" % victim, "settle 3000", "reg 1 svc1 10.0.0.9 80 0", "settle 3000", "start %d" % victim, "settle 9000"]
+            live = sorted({(o.split()[2], o.split()[3]) for o in ops if o.startswith("reg ") and o.endswith(" 1")})
+            beats = ["beat 1 %s %s 80" % (sv, ip) for sv, ip in live]
+            ops += ["kill %d" % victim, "settle 3000", "reg 1 svc1 10.0.0.9 80 0"] + beats + ["settle 3000", "start %d" % victim, "settle 5000"]
+            ops += beats + ["settle 5000"] + beats + ["settle 5000"] + beats + ["settle 5000"] + beats + ["settle 3000"]
             ops += ["listall %s" % s for s in svcs]
         cases.append(Case("registry-%d" % i, ops, True, "random"))
     # directed (both tiers): a rolling replacement - through each node in turn an instance is deregistered and a different
@@ -125,4 +130,16 @@ def gen_registry(rng, tier):
         b += ["settle 5000", "beat 2 svc2 10.0.0.2 80"]
     b += ["settle 3000", "listall svc2"]
     cases.append(Case("registry-heartbeat-then-deregister", b, True, "boundary"))
+    # directed (both tiers): gRPC clients (the nacos_rust_client crate) hold ephemeral instances through connections to
+    # different nodes; the node one of them is connected to is killed: its instances must disappear from the others;
+    # the node comes back, the client reconnects, everybody agrees again
+    g = ["up 3", "greg c1 3 svc3 10.0.0.5 80", "greg c2 1 svc3 10.0.0.6 80", "reg 2 svc3 10.0.0.7 80 1", "settle 3000", "listall svc3",
+         "kill 3"] + ["settle 5000", "beat 2 svc3 10.0.0.7 80"] * 6 + ["listall svc3", "start 3", "settle 12000", "beat 2 svc3 10.0.0.7 80",
+         "listall svc3"]
+    cases.append(Case("registry-grpc-node-death", g, True, "boundary"))
+    # directed (both tiers): an address changes its persistence class by re-registration (persistent -> ephemeral through
+    # another node, and back): the acknowledged registration must be listed everywhere afterwards
+    fl = ["up 3", "reg 1 svc4 10.0.0.8 80 0", "reg 2 svc4 10.0.0.9 80 1", "settle 2500", "reg 2 svc4 10.0.0.8 80 1", "reg 3 svc4 10.0.0.9 80 0",
+          "settle 3500", "listall svc4", "reg 3 svc4 10.0.0.8 80 0", "settle 3500", "listall svc4"]
+    cases.append(Case("registry-class-flip", fl, True, "boundary"))
     return cases
